@@ -2312,12 +2312,13 @@ func (gd Guard) IsNone() bool { return gd.op == -1 }
 
 // IterationEnd is one way an iteration of a loop body can end.
 type IterationEnd struct {
-	From  *cfg.Block // last block of the iteration
-	Break bool       // leaves the loop (break / goto out) instead of continuing
-	OK    bool       // the guard is established on every path that ends here
-	to    *cfg.Block
-	st    []uint64
-	ga    *guardAnalysis
+	From   *cfg.Block // last block of the iteration
+	Break  bool       // leaves the loop (break / goto out) instead of continuing
+	Return bool       // leaves the function (a return inside the body); only reported by LoopIterationWithReturns
+	OK     bool       // the guard is established on every path that ends here
+	to     *cfg.Block
+	st     []uint64
+	ga     *guardAnalysis
 }
 
 // LeavingEdge is the CFG edge through which the iteration ends this way.
@@ -2447,6 +2448,16 @@ func (e IterationEnd) EstablishedBefore(limit *cfg.Block) bool {
 // established on all paths ending there. Returning from the function inside the
 // body is not an end of the iteration in this sense (the loop result is not used).
 func (g *Graph) LoopIteration(rs *ast.RangeStmt, guard Guard) []IterationEnd {
+	return g.loopIteration(rs, guard, false)
+}
+
+// LoopIterationWithReturns is LoopIteration that also reports the returns inside the body as ends (Break and Return
+// set): what is known on the paths of this one iteration that leave the function there.
+func (g *Graph) LoopIterationWithReturns(rs *ast.RangeStmt, guard Guard) []IterationEnd {
+	return g.loopIteration(rs, guard, true)
+}
+
+func (g *Graph) loopIteration(rs *ast.RangeStmt, guard Guard, withReturns bool) []IterationEnd {
 	loop, body, done := g.RangeBlocks(rs)
 	if loop == nil || body == nil {
 		return nil
@@ -2462,12 +2473,20 @@ func (g *Graph) LoopIteration(rs *ast.RangeStmt, guard Guard) []IterationEnd {
 		to *cfg.Block
 	}
 	ends := map[endKey][]uint64{}
+	retEnds := map[*cfg.Block][]uint64{}
 	for len(work) > 0 {
 		b := work[len(work)-1]
 		work = work[:len(work)-1]
 		s := in[b]
 		for _, n := range b.Nodes {
 			s = ga.transferNode(n, s)
+		}
+		if withReturns && len(b.Succs) == 0 && len(b.Nodes) > 0 && !bsEmpty(s) {
+			if _, isRet := b.Nodes[len(b.Nodes)-1].(*ast.ReturnStmt); isRet {
+				cp := make([]uint64, len(s))
+				copy(cp, s)
+				retEnds[b] = cp
+			}
 		}
 		for k, nb := range b.Succs {
 			t := s
@@ -2512,6 +2531,9 @@ func (g *Graph) LoopIteration(rs *ast.RangeStmt, guard Guard) []IterationEnd {
 		}
 	}
 	var out []IterationEnd
+	for b, st := range retEnds {
+		out = append(out, IterationEnd{From: b, Break: true, Return: true, OK: bsSubset(st, ga.holds), st: st, ga: ga})
+	}
 	for k, st := range ends {
 		out = append(out, IterationEnd{From: k.b, Break: k.br, OK: bsSubset(st, ga.holds), to: k.to, st: st, ga: ga})
 		if os.Getenv("MLB_DEBUG_GUARD") != "" {
